@@ -77,6 +77,20 @@ class Ops:
     def unk(self, why, node):
         return self.interp.unknown(why, node)
 
+    def tag(self, tv, kind: str, node, **data):
+        """Emits a structural-op event with a fresh id and threads the id through the result's origin."""
+        self._tag_n = getattr(self, "_tag_n", 0) + 1
+        tid = f"{kind}#{self._tag_n}"
+        self.ev("sop", node, sop=kind, id=tid, **data)
+        if isinstance(tv, TV):
+            return tv.but(origin=tv.origin | {tid})
+        return tv
+
+    @staticmethod
+    def poly_of(v):
+        t = tv_of(v) if v is not None else None
+        return t.poly if t is not None else None
+
     def clear(self, flag: str, why: str, node):
         self.ev("clear", node, flag=flag, why=why)
 
@@ -160,7 +174,8 @@ class Ops:
             self.note_value_use(a, node)
             self.note_value_use(b, node)
             if not (a.is_py and b.is_py):
-                self.ev("op", node, op=opname, left=a.short(), right=b.short())
+                self.ev("op", node, op=opname, left=a.short(), right=b.short(), left_origin=sorted(a.origin), right_origin=sorted(b.origin),
+                        left_poly=a.poly, right_poly=b.poly)
         axes, bad_p, bad_c, err = self.broadcast(a, b, node)
         if err:
             self.ev("type_error", node, why=f"element-wise {opname} of axes {a.axes} and {b.axes}")
@@ -373,7 +388,7 @@ class Ops:
                 res = {ast.Eq: d == 0, ast.NotEq: d != 0, ast.Lt: d < 0, ast.LtE: d <= 0, ast.Gt: d > 0, ast.GtE: d >= 0}[type(op)]
                 return Const(res)
         if ta.is_py and tb.is_py and ta.poly is not None and tb.poly is not None:
-            self.ev("size_compare", node, op=type(op).__name__, diff=repr(ta.poly - tb.poly), left=repr(ta.poly), right=repr(tb.poly),
+            self.ev("size_compare", node, op=type(op).__name__, diff=repr(ta.poly - tb.poly), diff_poly=ta.poly - tb.poly, left=repr(ta.poly), right=repr(tb.poly),
                     origins=sorted(ta.origin | tb.origin))
         self.note_value_use(ta, node)
         self.note_value_use(tb, node)
